@@ -100,6 +100,13 @@ func checkProbe(r *rux.Router, s *seen, tb *model.Table, method, path string, ta
 		} else if !reflect.DeepEqual(first, got) {
 			return fmt.Sprintf("second lookup gives %v, first gave %v: %s", got, first, ctx)
 		}
+		// the map Match returned belongs to the caller: what the caller does to it must not reach later lookups
+		if s.mutate && ps != nil {
+			for k := range ps {
+				ps[k] = "overwritten-by-the-caller-of-Match"
+			}
+			ps["added-by-the-caller-of-Match"] = "x"
+		}
 		// what the handler sees
 		s.n = 0
 		rec := httptest.NewRecorder()
@@ -183,6 +190,17 @@ func prop(t *rapid.T) {
 		}
 		if msg := checkProbe(r, s, tb, method, path, target, vals, k); msg != "" {
 			t.Fatalf("%s", msg)
+		}
+		// the same path again under the sibling method (GET <-> HEAD share routes through the HEAD fallback, and
+		// share whatever the cache keeps for the path)
+		if sib := map[string]string{"GET": "HEAD", "HEAD": "GET"}[method]; sib != "" && rapid.Bool().Draw(t, "siblingMethod") {
+			ev.Class("probe:sibling-method-on-the-same-path")
+			if msg := checkProbe(r, s, tb, sib, path, target, vals, k); msg != "" {
+				t.Fatalf("%s", msg)
+			}
+			if msg := checkProbe(r, s, tb, method, path, target, vals, k); msg != "" {
+				t.Fatalf("%s", msg)
+			}
 		}
 	}
 }
